@@ -40,10 +40,10 @@ var dims = []dim{
 	{"hooks", []string{"nil", "existing"}},
 	{"env", []string{"none", "new", "override", "repeated", "override+repeated+new"}},
 	{"devnodes", []string{"none", "char-unspecified", "char-specified", "block-unspecified", "fifo-unspecified", "fifo-specified", "block-type-only",
-		"char-full-attrs", "char-uid0", "replace-existing", "same-path-twice", "same-path-twice-different-type", "replace+new", "no-hostpath-specified", "char-perm-r", "major-only", "only-uid-set", "only-gid-set", "uid-set-gid-zero"}},
+		"char-full-attrs", "char-uid0", "replace-existing", "same-path-twice", "same-path-twice-different-type", "replace+new", "no-hostpath-specified", "char-perm-r", "major-only", "only-uid-set", "only-gid-set", "uid-set-gid-zero", "mode-with-type-and-special-bits"}},
 	{"edit-mounts", []string{"none", "new", "replace-existing", "same-dest-twice", "deep-then-shallow", "non-clean-dest", "replace+siblings"}},
 	{"edit-hooks", []string{"none", "prestart", "createRuntime", "createContainer", "startContainer", "poststart", "poststop", "two-in-one-stage", "one-per-stage"}},
-	{"gids", []string{"none", "zero-only", "dup-5-5", "new-9-11", "zero-9-zero-7"}},
+	{"gids", []string{"none", "zero-only", "dup-5-5", "new-9-11", "zero-9-zero-7", "process-gid-2000-1-uid-1000"}},
 	{"rdt", []string{"nil", "set", "set-empty-closid"}},
 }
 
@@ -260,6 +260,9 @@ func buildEdits(c Case) *specs.ContainerEdits {
 		e.DeviceNodes = []*specs.DeviceNode{{Path: "/dev/ctr0", HostPath: bl, GID: u32(43)}, {Path: "/dev/ctr1", HostPath: ch}}
 	case "uid-set-gid-zero":
 		e.DeviceNodes = []*specs.DeviceNode{{Path: "/dev/ctr0", HostPath: ch, UID: u32(7), GID: u32(0)}, {Path: "/dev/ctr1", HostPath: ch2, UID: u32(0)}}
+	case "mode-with-type-and-special-bits":
+		// modes as a generator that copies st_mode records them (S_IFCHR|0666), and with setuid / sticky bits
+		e.DeviceNodes = []*specs.DeviceNode{{Path: "/dev/ctr0", HostPath: ch, FileMode: fmode(0o20666)}, {Path: "/dev/ctr1", HostPath: bl, FileMode: fmode(0o4755)}, {Path: "/dev/ctr2", HostPath: ch2, FileMode: fmode(0o1777)}}
 	case "major-only":
 		e.DeviceNodes = []*specs.DeviceNode{{Path: "/dev/ctr0", HostPath: ch, Major: 99, Minor: 98}} // type from host, numbers as given
 	}
@@ -300,6 +303,9 @@ func buildEdits(c Case) *specs.ContainerEdits {
 		e.AdditionalGIDs = []uint32{9, 11}
 	case "zero-9-zero-7":
 		e.AdditionalGIDs = []uint32{0, 9, 0, 7, 9}
+	case "process-gid-2000-1-uid-1000":
+		// values that are also the primary gid / the uid of the process in some initial specs
+		e.AdditionalGIDs = []uint32{2000, 1, 1000, 7}
 	}
 	switch c.opt(9) {
 	case "set":
